@@ -31,7 +31,7 @@ try:
         res["demo_with_patch_rc"] = r1.returncode
         res["demo_with_patch_tail"] = (r1.stdout + r1.stderr)[-600:]
         # regenerate the patch against current HEAD so that it applies cleanly to /repo
-        res["patch_vs_head"] = run(["git", "diff", "--", "spec_classes"], cwd=wt).stdout
+        res["patch_vs_head"] = run(["git", "diff", "HEAD", "--", "spec_classes"], cwd=wt).stdout  # vs HEAD: a 3-way apply stages its result
     res["confirmed"] = bool(res.get("patch_applies") and res.get("tests_pass_with_patch") and res.get("demo_with_patch_rc") not in (0, None) and res.get("demo_without_patch_rc") == 0)
 finally:
     run(["git", "-C", "/repo", "worktree", "remove", "--force", wt])
